@@ -578,6 +578,11 @@ func (m *ModSets) lockInvFor(call *ssa.CallCommon) (*LockInv, string) {
 	fname := styp.Underlying().(*types.Struct).Field(fa.Field).Name()
 	for _, li := range m.sp.LockInvs {
 		if li.Type == n.Obj().Name() && li.Mutex == fname && n.Obj().Pkg() != nil && n.Obj().Pkg().Name() == li.Pkg {
+			// a lock invariant is part of the proof of the properties it serves: in the check of another property the
+			// mutex is an ordinary lock (no havoc of the guarded fields at Lock, no obligation at Unlock)
+			if len(li.Serves) > 0 && currentProp != "" && !contains(li.Serves, currentProp) {
+				continue
+			}
 			return li, op
 		}
 	}
